@@ -121,6 +121,38 @@ class Source:
         if key not in cls.cache: cls.cache[key] = Source(rel)
         return cls.cache[key]
 
+def publicize_fields(frag, stats):
+    """visibility is irrelevant to verification, but Verus treats a datatype with a restricted field as opaque in public specs:
+    every named field of an extracted struct gets `pub`"""
+    m = match_table(frag)
+    kw = [i for i, t in enumerate(frag) if t.s in ("struct", "enum")]
+    if not kw or frag[kw[0]].s != "struct": return frag
+    ob = None
+    for i in range(kw[0], len(frag)):
+        if frag[i].s == "{": ob = i; break
+        if frag[i].s in ("(", ";"): break
+    if ob is None: return frag
+    cb = m[ob]
+    ins = []
+    i = ob + 1
+    start = True
+    while i < cb:
+        t = frag[i]
+        if t.k == "o": i = m[i] + 1; start = False; continue
+        if start and t.k == "id" and i + 1 < cb and frag[i + 1].s == ":" and t.s != "pub":
+            ins.append(i)
+        if start and t.s == "pub" and i + 1 < cb and frag[i + 1].s == "(":
+            # pub(crate) etc. -> pub
+            del frag[i + 1:m[i + 1] + 1]
+            m = match_table(frag); cb = m[ob]
+        start = (t.s == ",")
+        if t.s == "pub": start = False
+        i += 1
+    for i in reversed(ins):
+        frag[i:i] = T("pub")
+        stats["R8.pub_field"] = stats.get("R8.pub_field", 0) + 1
+    return frag
+
 def sha(s):
     return hashlib.sha256(s.encode()).hexdigest()[:16]
 
@@ -141,6 +173,7 @@ def extract(unit, ex):
         s, e = R.find_type(toks, m, ex["name"])
         frag = [t.copy() for t in toks[s:e]]
         info["anchor"] = "type:" + ex["name"]
+        frag = publicize_fields(frag, info["rules"])
         if ex.get("structural"):
             # `==` on a field-less enum in exec code: Verus wants the Structural marker next to PartialEq/Eq
             for k in range(len(frag)):
